@@ -319,8 +319,8 @@ pub fn judge_case(c: &Case) -> Obs {
 }
 
 fn cases() -> impl Strategy<Value = Case> {
-    prop_oneof![
-        9 => (prop_oneof![6 => proggen::prog_spec(20).boxed(), 1 => proggen::raw_image_spec(super::c03::image_words()).boxed()], prop::collection::vec((any::<u16>(), 0u8..3), 0..4), prop::collection::vec(raw_cmd(), 1..14), input_bytes())
+    crate::pick![
+        9 => (crate::pick![6 => proggen::prog_spec(20).boxed(), 1 => proggen::raw_image_spec(super::c03::image_words()).boxed()], prop::collection::vec((any::<u16>(), 0u8..3), 0..4), prop::collection::vec(raw_cmd(), 1..14), input_bytes())
             .prop_map(|(spec, extra, cmds, input)| Case::Generated { spec, extra, cmds, input }),
         1 => (prop::collection::vec(any::<u8>(), 1..8), any::<bool>()).prop_map(|(steps, predefined)| Case::SelfCall { steps, predefined }),
     ]
@@ -341,6 +341,9 @@ impl Prop for C11 {
     fn run_worker(&self, ctx: &Ctx, rep: &mut Report) {
         let n = ctx.share(ctx.tier.pick(30_000, 300_000));
         drive(ctx, rep, "sessions", cases(), n, &mut |c: &Case| judge_case(c));
+    }
+    fn fuzz_strategy(&self) -> Option<BoxedStrategy<Value>> {
+        Some(crate::fuzzmode::jv(cases()))
     }
     fn replay(&self, _ctx: &Ctx, case: &Value) -> Obs {
         match serde_json::from_value::<Case>(case.clone()) {
